@@ -11,6 +11,7 @@ import (
 	"os"
 	"os/exec"
 	"path/filepath"
+	"regexp"
 	"strconv"
 	"strings"
 	"time"
@@ -336,7 +337,7 @@ func replay(repo, oracleRoot string, fn *ssa.Function, pkgDir string, cex *Cex, 
 	os.WriteFile(ovFile, ovb, 0o644)
 	ctx, cancel := context.WithTimeout(context.Background(), 120*time.Second)
 	defer cancel()
-	cmd := exec.CommandContext(ctx, "go", "test", "-overlay", ovFile, "-vet=off", "-v", "-count=1", "-timeout", "60s", "-run", "^TestVerifReplay$", "./"+pkgDir)
+	cmd := exec.CommandContext(ctx, "go", "test", "-overlay", ovFile, "-vet=off", "-v", "-count=1", "-timeout", "20s", "-run", "^TestVerifReplay$", "./"+pkgDir)
 	cmd.Dir = repo
 	cmd.Env = append(os.Environ(), "GOFLAGS=-mod=mod", "GOPROXY=off", "GOSUMDB=off", "GOTOOLCHAIN=local")
 	out, _ := cmd.CombinedOutput()
@@ -353,6 +354,11 @@ func replay(repo, oracleRoot string, fn *ssa.Function, pkgDir string, cex *Cex, 
 			}
 			return rr
 		}
+	}
+	if strings.Contains(string(out), "panic: test timed out") {
+		rr.Confirmed = true
+		rr.What = "the call does not return within 20s on this input (non-termination)"
+		return rr
 	}
 	rr.What = "replay produced no verdict line"
 	if !hasOracle && kind != "safe" {
@@ -455,4 +461,77 @@ func boundQuery(q string) string {
 		b.WriteByte('\n')
 	}
 	return b.String()
+}
+
+type BoundedResult struct {
+	Name        string `json:"name"`
+	Pkg         string `json:"package"`
+	Bound       int    `json:"bound"`
+	Cases       int    `json:"cases"`
+	Nontrivial  int    `json:"nontrivial"`
+	Failures    int    `json:"failures"`
+	First       string `json:"first_failure,omitempty"`
+	Ran         bool   `json:"ran"`
+	Output      string `json:"output,omitempty"`
+	Secs        float64 `json:"secs"`
+}
+
+var reBounded = regexp.MustCompile(`VERIF-BOUNDED: name=(\S+) bound=(\d+) cases=(\d+) nontrivial=(\d+) failures=(\d+) first=(.*)`)
+
+// runBounded runs a bounded stand-in (a Go test kept in /verif/replay/<pkg>/bounded_test.go)
+// on the real package through an overlay.
+func runBounded(repo, replayRoot, spec, tier, tmp string) []BoundedResult {
+	pkgDir, test, _ := strings.Cut(spec, ":")
+	src := filepath.Join(replayRoot, pkgDir, "bounded_test.go")
+	ov := map[string]map[string]string{"Replace": {filepath.Join(repo, pkgDir, "zz_verif_bounded_test.go"): src}}
+	// every other *_test.go helper of the package's replay directory is overlaid too
+	if helpers, _ := filepath.Glob(filepath.Join(replayRoot, pkgDir, "*_test.go")); helpers != nil {
+		for _, h := range helpers {
+			if filepath.Base(h) != "bounded_test.go" {
+				ov["Replace"][filepath.Join(repo, pkgDir, "zz_verif_"+filepath.Base(h))] = h
+			}
+		}
+	}
+	ovb, _ := json.Marshal(ov)
+	ovFile := filepath.Join(tmp, "overlay_bounded_"+san(spec)+".json")
+	os.WriteFile(ovFile, ovb, 0o644)
+	limit := 150 * time.Second
+	if tier == "thorough" {
+		limit = 25 * time.Minute
+	}
+	ctx, cancel := context.WithTimeout(context.Background(), limit+30*time.Second)
+	defer cancel()
+	t0 := time.Now()
+	cmd := exec.CommandContext(ctx, "go", "test", "-overlay", ovFile, "-vet=off", "-v", "-count=1", "-timeout", fmt.Sprintf("%ds", int(limit.Seconds())), "-run", "^"+test+"$", "./"+pkgDir)
+	cmd.WaitDelay = 5 * time.Second
+	cmd.Dir = repo
+	cmd.Env = append(os.Environ(), "GOFLAGS=-mod=mod", "GOPROXY=off", "GOSUMDB=off", "GOTOOLCHAIN=local", "VERIF_TIER="+tier)
+	out, _ := cmd.CombinedOutput()
+	var res []BoundedResult
+	for _, l := range strings.Split(string(out), "\n") {
+		if m := reBounded.FindStringSubmatch(l); m != nil {
+			r := BoundedResult{Name: m[1], Pkg: pkgDir, Ran: true, Secs: round3(time.Since(t0).Seconds())}
+			r.Bound, _ = strconv.Atoi(m[2])
+			r.Cases, _ = strconv.Atoi(m[3])
+			r.Nontrivial, _ = strconv.Atoi(m[4])
+			r.Failures, _ = strconv.Atoi(m[5])
+			if u, err := strconv.Unquote(strings.TrimSpace(m[6])); err == nil {
+				r.First = u
+			} else {
+				r.First = m[6]
+			}
+			res = append(res, r)
+		}
+	}
+	if len(res) == 0 {
+		br := BoundedResult{Name: test, Pkg: pkgDir, Ran: false, Output: trunc(string(out), 2000), Secs: round3(time.Since(t0).Seconds())}
+		if strings.Contains(string(out), "panic: test timed out") || ctx.Err() != nil {
+			// the real code did not finish the enumeration within the limit: reported, not silently dropped
+			br.Ran = true
+			br.Failures = 1
+			br.First = fmt.Sprintf("the stand-in did not finish within %s (a call on the real code hangs or the bound is too large)", limit)
+		}
+		res = append(res, br)
+	}
+	return res
 }
